@@ -117,6 +117,8 @@ func c06(raw json.RawMessage, resp *drv.Response) error {
 		return c06Values(req, resp, rng)
 	case "registry":
 		return c06Registry(req, resp, rng)
+	case "late":
+		return c06Late(req, resp, rng)
 	}
 	return fmt.Errorf("unknown part %q", req.Part)
 }
@@ -550,6 +552,42 @@ func c06Registry(req c06Req, resp *drv.Response, rng *rand.Rand) error {
 			resp.Violate("c06/registry/concurrency", fmt.Sprintf("%d goroutines x %d requests: chips created %d (want 1), requests flushed %d (want %d), err=%v", threads, per, nchips, flushed, total, firstLine(err)), nil)
 		}
 		resp.Sample(map[string]any{"goroutines": threads, "requests": total, "chips_created": nchips, "flushed": flushed})
+	}
+	return nil
+}
+
+// ---- beyond the property: RangeChip.tla's LateRequest hazard on the real code ---------------------------------------
+//
+// A circuit that requests one more range check from a deferred callback registered after the chip's flush.  Nothing in the
+// repository does that; the part records the trace for RangeChipTrace (accepted only with AllowLateRequest) and reports what the
+// code does with an out-of-range value requested that way.
+func c06Late(req c06Req, resp *drv.Response, rng *rand.Rand) error {
+	setBitDecompEnv(false)
+	pad := padValues(commitPad, rng)
+	cfg := &engine.Config{Mode: engine.Commit, RecordEvts: map[string]bool{"*": true}}
+	late := pow2(40) // does not fit the 32 bits requested for it
+	all := append([]*big.Int{late, big.NewInt(7)}, pad...)
+	err := hc.Run(cfg, all, func(api frontend.API, in []frontend.Variable) error {
+		chip := gl.New(api) // registers the chip's flush
+		for j := 2; j < len(all); j++ {
+			chip.RangeCheckWithMaxBits(gl.NewVariable(in[j]), 32)
+		}
+		chip.RangeCheckWithMaxBits(gl.NewVariable(in[1]), 32)
+		api.Compiler().Defer(func(api frontend.API) error { // runs after the flush
+			chip.RangeCheckWithMaxBits(gl.NewVariable(in[0]), 32)
+			return nil
+		})
+		return nil
+	})
+	out := hc.Outcome(err)
+	start := map[string]any{"ev": "start", "rc": false, "commit": true, "ft": "r1cs", "typer": false, "real": false, "env": false, "pad": commitPad}
+	tr := rangeTrace(cfg, start, out, commitPad)
+	resp.Count("late-request", false)
+	resp.Note("late_outcome", out)
+	resp.Note("late_error", firstLine(err))
+	resp.Note("trace_records", len(tr))
+	if req.TraceFile != "" {
+		return writeNdjson(req.TraceFile, tr)
 	}
 	return nil
 }
